@@ -127,6 +127,7 @@ func verifSplit(v uint64, lo, hi uint64) uint64
 func verifIsSymbolic(v uint64) bool
 func verifAnd(a, b bool) bool
 func verifQuick() bool
+func verifNative() bool
 func verifSeed() uint64
 func verifOr(a, b bool) bool
 func verifIte(c bool, a, b uint64) uint64
@@ -175,8 +176,12 @@ func verifNote(s string)                        {}
 func verifSplit(v uint64, lo, hi uint64) uint64 { return v }
 func verifIsSymbolic(v uint64) bool             { return false }
 func verifAnd(a, b bool) bool                   { return a && b }
-func verifQuick() bool                          { return false }
-func verifSeed() uint64                         { return 0 }
+var verifQuickFlag bool
+var verifSeedVal uint64
+
+func verifQuick() bool                          { return verifQuickFlag }
+func verifNative() bool                         { return true }
+func verifSeed() uint64                         { return verifSeedVal }
 func verifOr(a, b bool) bool                    { return a || b }
 func verifIte(c bool, a, b uint64) uint64 {
 	if c {
